@@ -82,6 +82,12 @@ type Service struct {
 	// so Collect must not need mu, which is held while waiting for handlers to finish.
 	closedMu sync.RWMutex
 
+	// persistLocks holds one lock per topic. It makes updating the state of a topic and
+	// writing that state to the store one step, so that two concurrent events of the same
+	// ID are stored in the order in which they were applied to the topic.
+	persistLocksMu sync.Mutex
+	persistLocks   map[string]*sync.Mutex
+
 	inhibitorLookup *alert.InhibitorLookup
 
 	topics         *alert.Topics
@@ -486,6 +492,10 @@ func (s *Service) Collect(event alert.Event) error {
 		}
 	}
 
+	l := s.persistLock(event.Topic)
+	l.Lock()
+	defer l.Unlock()
+
 	err := s.topics.Collect(event)
 	if err != nil {
 		return err
@@ -500,6 +510,20 @@ func (s *Service) Collect(event alert.Event) error {
 	} else {
 		return s.persistEventState(event)
 	}
+}
+
+func (s *Service) persistLock(topic string) *sync.Mutex {
+	s.persistLocksMu.Lock()
+	defer s.persistLocksMu.Unlock()
+	l, ok := s.persistLocks[topic]
+	if !ok {
+		if s.persistLocks == nil {
+			s.persistLocks = make(map[string]*sync.Mutex)
+		}
+		l = new(sync.Mutex)
+		s.persistLocks[topic] = l
+	}
+	return l
 }
 
 func (s *Service) persistEventState(event alert.Event) error {
@@ -634,6 +658,9 @@ func (s *Service) DeleteTopic(topic string) error {
 }
 
 func (s *Service) UpdateEvent(topic string, event alert.EventState) error {
+	l := s.persistLock(topic)
+	l.Lock()
+	defer l.Unlock()
 	s.topics.UpdateEvent(topic, event)
 	return s.persistEventState(alert.Event{
 		Topic: topic,
